@@ -165,6 +165,17 @@ def run(ctx):
             ctx.cov['traces_validated_against_impl'] += len(res)
             bad = [i for i, r in enumerate(res) if not r]
             if bad: ctx.broken.append(f'{name} Newton-Schulz model and implementation disagree on {len(bad)} of {len(res)} trajectory(ies), first: {terms[bad[0]][:400]}')
+    for (m, n, sv) in ((3, 2, [Fraction(2), Fraction(1)]), (3, 3, [Fraction(3), Fraction(2), Fraction(1)]), (2, 4, [Fraction(5), Fraction(4)]), (4, 4, [Fraction(2), Fraction(1), Fraction(0), Fraction(0)])):
+        At, _, _ = spectral_problem(rng, m, n, sv); Atn = qx.to_np(At); nrm = float(utils.quat_frobenius_norm(Atn))
+        for tolv in (1e-4, 1e-9):
+            for nm, mk in (('third', lambda: solver.HigherOrderNewtonSchulzPseudoinverse(max_iter=60, tol=tolv)), ('damped', lambda: solver.NewtonSchulzPseudoinverse(gamma=1.0, max_iter=400, tol=tolv))):
+                inp = {'solver': nm, 'shape': [m, n], 'singular_values': [str(x) for x in sv], 'tol': tolv}
+                try: Xt, rest, _ = mk().compute(Atn)
+                except Exception as e: viol(f'C03:{nm}:tolerance-stop:raises', f'{nm} solver raised {e!r} with tol > 0', inp); continue
+                tr = float(utils.quat_frobenius_norm(utils.quat_matmat(utils.quat_matmat(Atn, Xt), Atn) - Atn))
+                hist = [float(v) for v in rest['AXA-A']]
+                if hist and abs(tr - hist[-1]) > 1e-9 * nrm + 1e-6 * hist[-1]: viol(f'C03:{nm}:tolerance-stop:history', f'after a tolerance stop the last reported ||AXA-A|| ({hist[-1]:.3e}) is not the residual of the returned X ({tr:.3e})', inp, hist[-1], tr)
+                ctx.count(('tolstop', nm, m, n, tolv), True)
     _A, _, _ = spectral_problem(rng, 3, 2, [Fraction(2), Fraction(1)]); _A = qx.to_np(_A)
     cm.layout_sweep(ctx, qx, 'C03', 'NewtonSchulzPseudoinverse', lambda X: solver.NewtonSchulzPseudoinverse(gamma=0.5, max_iter=4, tol=0.0).compute(X)[0], _A, {'shape': [3, 2]})
     cm.layout_sweep(ctx, qx, 'C03', 'HigherOrderNewtonSchulzPseudoinverse', lambda X: solver.HigherOrderNewtonSchulzPseudoinverse(max_iter=3, tol=0.0).compute(X)[0], _A, {'shape': [3, 2]})
